@@ -2,6 +2,7 @@ package main
 
 import (
 	"bytes"
+	"encoding/json"
 	"fmt"
 	"reflect"
 	"strconv"
@@ -331,6 +332,209 @@ func execOp(s *Sexp) string {
 		return execJDeep(s)
 	case "tdeep":
 		return execTDeep(s)
+	case "descconc":
+		// (descconc ROUNDS): goroutines ask for the Descriptors of types that share nested struct types, at
+		// once; every answer must be the one a lone caller gets. Oracle only.
+		rounds, err := strconv.Atoi(arg(1))
+		if err != nil || rounds < 1 || rounds > 1000000 {
+			return "bad-op"
+		}
+		return guard(func() string {
+			p := &plenc.Plenc{}
+			p.RegisterDefaultCodecs()
+			types := []reflect.Type{reflect.TypeOf(Outer{}), reflect.TypeOf(Inner{}), reflect.TypeOf(Emb{}), reflect.TypeOf(ProtoMapHolder{}), reflect.TypeOf([]Outer{}), reflect.TypeOf(Steady{})}
+			var codecs []plenccodec.Codec
+			var want []string
+			for _, t := range types {
+				c, err := p.CodecForType(t)
+				if err != nil {
+					return "err"
+				}
+				d := c.Descriptor()
+				codecs, want = append(codecs, c), append(want, renderDesc(&d))
+			}
+			var wg sync.WaitGroup
+			var mu sync.Mutex
+			msg := ""
+			for gi := 0; gi < 8; gi++ {
+				gi := gi
+				wg.Add(1)
+				go func() {
+					defer wg.Done()
+					for k := 0; k < rounds; k++ {
+						i := (gi + k) % len(codecs)
+						d := codecs[i].Descriptor()
+						if got := renderDesc(&d); got != want[i] {
+							mu.Lock()
+							if msg == "" {
+								msg = fmt.Sprintf("ok wrong: concurrent Descriptor() of %s returned %s, alone it is %s", types[i], clip(got, 200), clip(want[i], 200))
+							}
+							mu.Unlock()
+							return
+						}
+					}
+				}()
+			}
+			wg.Wait()
+			if msg != "" {
+				return msg
+			}
+			return "ok"
+		})
+	case "jconc":
+		// (jconc ROUNDS): goroutines marshal JSON-any values whose texts differ in length, at once; every
+		// encoding must be the one a lone caller gets and must decode to the value. Oracle only.
+		rounds, err := strconv.Atoi(arg(1))
+		if err != nil || rounds < 1 || rounds > 1000000 {
+			return "bad-op"
+		}
+		return guard(func() string {
+			p := jsonInstance()
+			var want [][]byte
+			// single-entry objects, so that map order plays no part
+			one := func(i int) ([]byte, map[string]interface{}) {
+				m := map[string]interface{}{strings.Repeat("k", 1+i%7): strings.Repeat("v", i%200)}
+				if i%3 == 0 {
+					m = map[string]interface{}{"n": json.Number(strings.Repeat("1", 1+i%15))}
+				}
+				d, _ := p.Marshal(nil, &m)
+				return d, m
+			}
+			for i := 0; i < 64; i++ {
+				d, _ := one(i)
+				want = append(want, append([]byte(nil), d...))
+			}
+			var wg sync.WaitGroup
+			var mu sync.Mutex
+			msg := ""
+			for gi := 0; gi < 8; gi++ {
+				gi := gi
+				wg.Add(1)
+				go func() {
+					defer wg.Done()
+					for k := 0; k < rounds; k++ {
+						i := (gi*7 + k) % 64
+						if d, _ := one(i); !bytes.Equal(d, want[i]) {
+							mu.Lock()
+							if msg == "" {
+								msg = fmt.Sprintf("ok wrong: concurrent Marshal of a JSON-any value gave %s, alone it gives %s", hx(d), hx(want[i]))
+							}
+							mu.Unlock()
+							return
+						}
+					}
+				}()
+			}
+			wg.Wait()
+			if msg != "" {
+				return msg
+			}
+			return "ok"
+		})
+	case "regintern":
+		// (regintern): a named string type with a registered codec that cannot intern keeps that codec in a
+		// field tagged `intern` (the option asks a codec to intern if it can; it never selects another one).
+		return guard(func() string {
+			type holder struct {
+				A MyStr  `plenc:"1,intern"`
+				B MyStr  `plenc:"2"`
+				C *MyStr `plenc:"3,intern"`
+			}
+			p := &plenc.Plenc{}
+			p.RegisterDefaultCodecs()
+			p.RegisterCodec(reflect.TypeOf(MyStr("")), upperCodec{})
+			s := MyStr("abc")
+			data, err := p.Marshal(nil, &holder{A: "abc", B: "abc", C: &s})
+			if err != nil {
+				return "err"
+			}
+			if want := "0a034142431203414243" + "1a03414243"; hx(data) != "x"+want {
+				return "ok wrong: " + hx(data)
+			}
+			var out holder
+			if err := p.Unmarshal(data, &out); err != nil || out.A != "ABC" || out.B != "ABC" || out.C == nil || *out.C != "ABC" {
+				return fmt.Sprintf("ok wrong: decoded %+v (err %v)", out, err)
+			}
+			return "ok"
+		})
+	case "bqptr":
+		// (bqptr N): the exported BQTimestampCodec registered under a tag, used behind a NIL pointer and as a
+		// map key (the two places that call the codec's New): N decodes; every earlier result must stay intact
+		n, err := strconv.Atoi(arg(1))
+		if err != nil || n < 1 || n > 100000 {
+			return "bad-op"
+		}
+		return guard(func() string {
+			type holder struct {
+				A  int                  `plenc:"1"`
+				At *time.Time           `plenc:"2,bq"`
+				M  map[time.Time]string `plenc:"3"`
+			}
+			p := &plenc.Plenc{}
+			p.RegisterDefaultCodecs()
+			p.RegisterCodecWithTag(reflect.TypeOf(time.Time{}), "bq", plenccodec.BQTimestampCodec{})
+			// … and as the codec for every time.Time of a second instance (so that map keys use it)
+			type holder2 struct {
+				M map[time.Time]int `plenc:"1"`
+				P *time.Time        `plenc:"2"`
+			}
+			p2 := &plenc.Plenc{}
+			p2.RegisterDefaultCodecs()
+			p2.RegisterCodec(reflect.TypeOf(time.Time{}), plenccodec.BQTimestampCodec{})
+			var outs2 []*holder2
+			for i := 0; i < n; i++ {
+				at := time.Unix(1600000000+int64(i)*60, int64(i%1000)*1000).UTC()
+				data, err := p2.Marshal(nil, &holder2{M: map[time.Time]int{at: i}, P: &at})
+				if err != nil {
+					return "err"
+				}
+				out := &holder2{}
+				if err := p2.Unmarshal(data, out); err != nil {
+					return "err"
+				}
+				outs2 = append(outs2, out)
+			}
+			for i, out := range outs2 {
+				want := time.Unix(1600000000+int64(i)*60, int64(i%1000)*1000).UTC()
+				if out.P == nil || !out.P.Equal(want) || len(out.M) != 1 {
+					return fmt.Sprintf("ok wrong: (default registration) decode %d holds %v, want %v", i, out.P, want)
+				}
+				for k, v := range out.M {
+					if !k.Equal(want) || v != i {
+						return fmt.Sprintf("ok wrong: (default registration) decode %d has key %v, want %v", i, k, want)
+					}
+				}
+			}
+			var outs []*holder
+			for i := 0; i < n; i++ {
+				at := time.Unix(1700000000+int64(i)*3600, int64(i%1000)*1000).UTC()
+				in := holder{A: i + 1, At: &at, M: map[time.Time]string{at: "x"}}
+				data, err := p.Marshal(nil, &in)
+				if err != nil {
+					return "err"
+				}
+				out := &holder{}
+				if err := p.Unmarshal(data, out); err != nil {
+					return "err"
+				}
+				outs = append(outs, out)
+			}
+			for i, out := range outs {
+				want := time.Unix(1700000000+int64(i)*3600, int64(i%1000)*1000).UTC()
+				if out.A != i+1 || out.At == nil || !out.At.Equal(want) || out.At.Location() == nil {
+					return fmt.Sprintf("ok wrong: decode %d holds %v, want %v", i, out.At, want)
+				}
+				if len(out.M) != 1 {
+					return fmt.Sprintf("ok wrong: decode %d has %d map entries", i, len(out.M))
+				}
+				for k := range out.M {
+					if !k.Equal(want) {
+						return fmt.Sprintf("ok wrong: decode %d has key %v, want %v", i, k, want)
+					}
+				}
+			}
+			return "ok"
+		})
 	case "latereg":
 		// (latereg KIND): a use that fails because a type has no codec leaves nothing behind: once the
 		// codec is registered on that same instance the same call works, and gives what an instance
@@ -803,6 +1007,24 @@ func execOp(s *Sexp) string {
 			if err != nil {
 				return "err"
 			}
+			data = append([]byte(nil), data...)
+			if c.tag == "" && !multiEntryMaps(v) {
+				if c.rt.Kind() != reflect.Ptr {
+					// the same bytes when the value is handed over by value
+					if d2, err := c.p.Marshal(nil, pv.Elem().Interface()); err != nil || !bytes.Equal(d2, data) {
+						return "byval-differs " + hx(data) + " " + hx(d2)
+					}
+				}
+				if !containsNamedStruct(c.td) {
+					// asking for the type's Descriptor in between changes nothing about the encoding
+					if cd, err := c.codec(); err == nil {
+						_ = cd.Descriptor()
+						if d3, err := c.marshalPtr(pv); err != nil || !bytes.Equal(d3, data) {
+							return "desc-changes-encoding " + hx(data) + " " + hx(d3)
+						}
+					}
+				}
+			}
 			return "ok " + hx(data)
 		})
 	case "encm":
@@ -990,6 +1212,18 @@ func execOp(s *Sexp) string {
 			out, err := c.p.Marshal(buf, iface)
 			if err != nil {
 				return "err"
+			}
+			if c.tag == "" && !multiEntryMaps(v) && !containsNamedStruct(c.td) {
+				// asking the codec for the type's Descriptor is a read-only act: the next Marshal writes the same bytes
+				out = append([]byte(nil), out...)
+				if cd, err := c.codec(); err == nil {
+					_ = cd.Descriptor()
+					buf2 := make([]byte, len(pre), len(pre)+int(capExtra))
+					copy(buf2, pre)
+					if out2, err := c.p.Marshal(buf2, iface); err != nil || !bytes.Equal(out2, out) {
+						return "desc-changes-encoding " + hx(out) + " " + hx(out2)
+					}
+				}
 			}
 			return "ok " + hx(out)
 		})
@@ -1179,8 +1413,175 @@ func execOp(s *Sexp) string {
 			}
 			return fmt.Sprintf("%d %s %d %s %s", cd.Size(ptr, nil), hx(body), cd.Size(ptr, tb), hx(cd.Append(nil, ptr, tb)), rd)
 		})
+	case "lawsz":
+		// (lawsz cfg T tag N xTAG): Size == len(Append), without and with a tag, for a value too large for the
+		// model or with many map entries (whose order is not fixed): N elements / entries; the kind of
+		// value is taken from T: a slice gets N elements, a map N entries, inside one level of struct or not.
+		c, err := parseCtx(s)
+		if err != nil {
+			return "bad-op " + err.Error()
+		}
+		n, err1 := strconv.Atoi(arg(4))
+		tb, err2 := unhx(arg(5))
+		if err1 != nil || err2 != nil || n < 0 || n > 100000 {
+			return "bad-op"
+		}
+		return guard(func() string {
+			cd, err := c.codec()
+			if err != nil {
+				return "builderr"
+			}
+			pv := reflect.New(c.rt)
+			fillN(pv.Elem(), n)
+			ptr := pv.UnsafePointer()
+			if c.rt.Kind() == reflect.Map {
+				ptr = *(*unsafe.Pointer)(ptr)
+			}
+			b1, b2 := cd.Append(nil, ptr, nil), cd.Append(nil, ptr, tb)
+			res := fmt.Sprintf("ok %d %d %d %d", cd.Size(ptr, nil), len(b1), cd.Size(ptr, tb), len(b2))
+			// nested one level down, the enclosing length prefix must let the data be read back
+			data, err := c.p.Marshal(nil, pv.Interface())
+			if err != nil {
+				return res + " marshal-err"
+			}
+			back := reflect.New(c.rt)
+			if err := c.p.Unmarshal(data, back.Interface()); err != nil {
+				return res + " unmarshal-err"
+			}
+			if !sameModuloNil(back.Elem(), pv.Elem()) {
+				return res + " differs"
+			}
+			return res + " same"
+		})
 	}
 	return "bad-op unknown " + h
+}
+
+// upperCodec: a codec for a string type that writes the text in upper case and does not implement Interner
+type upperCodec struct{}
+
+func (upperCodec) Omit(ptr unsafe.Pointer) bool { return len(*(*string)(ptr)) == 0 }
+func (upperCodec) Size(ptr unsafe.Pointer, tag []byte) int {
+	return plenccodec.StringCodec{}.Size(ptr, tag)
+}
+func (upperCodec) Append(data []byte, ptr unsafe.Pointer, tag []byte) []byte {
+	u := strings.ToUpper(*(*string)(ptr))
+	return plenccodec.StringCodec{}.Append(data, unsafe.Pointer(&u), tag)
+}
+func (upperCodec) Read(data []byte, ptr unsafe.Pointer, wt plenccore.WireType) (int, error) {
+	return plenccodec.StringCodec{}.Read(data, ptr, wt)
+}
+func (upperCodec) New() unsafe.Pointer               { return unsafe.Pointer(new(string)) }
+func (upperCodec) WireType() plenccore.WireType      { return plenccore.WTLength }
+func (upperCodec) Descriptor() plenccodec.Descriptor { return plenccodec.StringCodec{}.Descriptor() }
+
+// sameModuloNil: deep equality in which a nil pointer equals a pointer to the zero value
+func sameModuloNil(a, b reflect.Value) bool {
+	switch a.Kind() {
+	case reflect.Ptr:
+		if a.IsNil() && b.IsNil() {
+			return true
+		}
+		za, zb := a, b
+		if a.IsNil() {
+			za = reflect.New(a.Type().Elem())
+		}
+		if b.IsNil() {
+			zb = reflect.New(b.Type().Elem())
+		}
+		return sameModuloNil(za.Elem(), zb.Elem())
+	case reflect.Struct:
+		if a.Type() == timeType {
+			return a.Interface().(time.Time).Equal(b.Interface().(time.Time))
+		}
+		for i := 0; i < a.NumField(); i++ {
+			if a.Type().Field(i).IsExported() && !sameModuloNil(a.Field(i), b.Field(i)) {
+				return false
+			}
+		}
+		return true
+	case reflect.Slice:
+		if a.Len() != b.Len() {
+			return false
+		}
+		for i := 0; i < a.Len(); i++ {
+			if !sameModuloNil(a.Index(i), b.Index(i)) {
+				return false
+			}
+		}
+		return true
+	case reflect.Map:
+		if a.Len() != b.Len() {
+			return false
+		}
+		for _, k := range a.MapKeys() {
+			bv := b.MapIndex(k)
+			if !bv.IsValid() || !sameModuloNil(a.MapIndex(k), bv) {
+				return false
+			}
+		}
+		return true
+	}
+	return reflect.DeepEqual(a.Interface(), b.Interface())
+}
+
+// fillN: every slice reachable through struct fields gets n elements, every map n entries (distinct
+// small keys), scalars a non-zero value.
+func fillN(rv reflect.Value, n int) {
+	switch rv.Kind() {
+	case reflect.Struct:
+		if rv.Type() == timeType {
+			rv.Set(reflect.ValueOf(time.Unix(1700000000, 5).UTC()))
+			return
+		}
+		for i := 0; i < rv.NumField(); i++ {
+			if rv.Type().Field(i).IsExported() {
+				fillN(rv.Field(i), n)
+			}
+		}
+	case reflect.Slice:
+		s := reflect.MakeSlice(rv.Type(), n, n)
+		for i := 0; i < n; i++ {
+			if rv.Type().Elem().Kind() == reflect.Ptr && i%3 == 1 && rv.Type().Elem().Elem().Kind() == reflect.Struct {
+				continue // a nil entry among pointers to structs (reads back as a pointer to the zero value)
+			}
+			fillN(s.Index(i), 1)
+		}
+		rv.Set(s)
+	case reflect.Map:
+		m := reflect.MakeMapWithSize(rv.Type(), n)
+		for i := 0; i < n; i++ {
+			k := reflect.New(rv.Type().Key()).Elem()
+			switch k.Kind() {
+			case reflect.String:
+				k.SetString(fmt.Sprintf("k%d", i))
+			case reflect.Int, reflect.Int32, reflect.Int64:
+				k.SetInt(int64(i + 1))
+			case reflect.Uint, reflect.Uint32, reflect.Uint64:
+				k.SetUint(uint64(i + 1))
+			default:
+				fillN(k, 1)
+			}
+			v := reflect.New(rv.Type().Elem()).Elem()
+			fillN(v, 1)
+			m.SetMapIndex(k, v)
+		}
+		rv.Set(m)
+	case reflect.Ptr:
+		p := reflect.New(rv.Type().Elem())
+		fillN(p.Elem(), n)
+		rv.Set(p)
+	case reflect.String:
+		rv.SetString("ab")
+	case reflect.Bool:
+		rv.SetBool(true)
+	case reflect.Int, reflect.Int8, reflect.Int16, reflect.Int32, reflect.Int64:
+		rv.SetInt(3)
+	case reflect.Uint, reflect.Uint8, reflect.Uint16, reflect.Uint32, reflect.Uint64:
+		rv.SetUint(3)
+	case reflect.Float32, reflect.Float64:
+		rv.SetFloat(1.5)
+	}
 }
 
 // truncateSlices cuts the slice itself (top level) or every slice-typed field of a
